@@ -1,15 +1,19 @@
 #!/bin/bash
 # runs seeded changes against their property's quick check, sequentially.
-#   tools/seedsweep.sh            every seeded/C*/m*
-#   tools/seedsweep.sh 'm[78]'    only those (shell pattern on the change name)
+#   tools/seedsweep.sh                 every seeded/C*/m*
+#   tools/seedsweep.sh 'm[78]'         only those (shell pattern on the change name)
+#   tools/seedsweep.sh 'm[78]' 'C1[2-9] C20'   ... of these properties (shell patterns)
 # Uses /repo's working tree (patch applied, check run, patch undone), or the tree named by VERIF_REPO
 # (e.g. a scratch copy, so that a sweep can run next to other work); results go to seeded/<id>/<m>/result.json.
 cd "$(dirname "$0")/.."
 pat=${1:-m*}
+props=${2:-C*}
 [ -n "$VERIF_REPO" ] && ./setup.sh >/dev/null 2>&1
-for d in seeded/C*/$pat; do
+for pp in $props; do
+for d in seeded/$pp/$pat; do
   [ -f $d/patch.diff ] || continue
   s=${d#seeded/}
   [ -z "$VERIF_REPO" ] && tools/seedrebase.sh ${s%/*} ${s#*/} >/dev/null 2>&1
   echo "$s: $(tools/seedrun.py $s 2>&1 | tail -1 | cut -c1-200)"
+done
 done
